@@ -204,13 +204,13 @@ impl Scenario for CtrJump {
                     let ks = keystream(f, &sp.key, &sp.nonce, blk, off, len, sp.rounds);
                     let want: Vec<u8> = input.get().iter().zip(ks.iter()).map(|(a, b)| a ^ b).collect();
                     let got: Vec<u8> = if op.k == K_PROCESS {
-                        let mut out = data(op.seed ^ 0x5151, len); // dirty destination
-                        guarded(|| real.process(input.get(), &mut out)).map_err(|m| Violation::new("unexpected-panic", i, "process", m, sp.v.name))?;
-                        out
+                        let mut out = Aligned::dirty(op.seed ^ 0x5151, len); // dirty destination at its own misalignment
+                        guarded(|| real.process(input.get(), out.get_mut())).map_err(|m| Violation::new("unexpected-panic", i, "process", m, sp.v.name))?;
+                        out.to_vec()
                     } else {
-                        let mut buf = input.get().to_vec();
-                        guarded(|| real.process_mut(&mut buf)).map_err(|m| Violation::new("unexpected-panic", i, "process_mut", m, sp.v.name))?;
-                        buf
+                        let mut buf = Aligned::holding(input.get(), op.seed ^ 0x3131);
+                        guarded(|| real.process_mut(buf.get_mut())).map_err(|m| Violation::new("unexpected-panic", i, "process_mut", m, sp.v.name))?;
+                        buf.to_vec()
                     };
                     obs.out(&got);
                     let total = off + len;
